@@ -12,6 +12,14 @@
    and to the real AMQP consume loop, and records what a capture dispatcher saw.
 4. Verdict: recorded dispatch list (bytes) must be one of TLC's acceptable lists, concretised by
    construction (range -> concatenation of the fragments of those positions).
+5. Continuation after a read error: a timeout does not end the byte stream (input.TimeoutConn arms a
+   fresh deadline per Read), so for the timeout conditions TLC appends a tail to every stream (Conts
+   of FramingOps: the rest of the straddling line + further lines) which the chunking reader serves
+   to reads issued AFTER the error (on the real TCP listener: the client sends it 1.5 read-timeout
+   periods after the stream unless the server has ended the connection).  Acceptable (AcceptableAt):
+   the handler stopped at the error -- nothing of the tail, the straddling line at most once as the
+   open partial fragment -- or it dispatched the lines of the whole stream; never the straddling
+   line in two fragments (ReadOn: the lists of the model's deviation "read_on_after_error").
 """
 import hashlib, json, os, random
 from checks import framlib
@@ -119,15 +127,30 @@ def conc_long(rng, s, limit, d, total_max=None):
 
 class Jobs:
     def __init__(self):
-        self.jobs, self.meta = [], {}
+        self.jobs, self.meta, self.tails = [], {}, {}
 
-    def add(self, case, frags, cuts, terms, trans, lst=None, cls=""):
+    def add(self, case, frags, cuts, terms, trans, lst=None, cls="", tail=None):
+        """tail = (index into case["conts"], fragments of that tail) -- served after a timeout error"""
         jid = len(self.jobs)
-        self.jobs.append(dict(id=jid, frags=[f.hex() for f in frags], cuts=cuts, list=lst or [], terms=terms, trans=trans))
+        ti, tfr = tail if tail else (-1, [])
+        self.jobs.append(dict(id=jid, frags=[f.hex() for f in frags], cuts=cuts, list=lst or [], terms=terms, trans=trans,
+                              tail=[f.hex() for f in tfr]))
         self.meta[jid] = (case, frags, cls)
+        self.tails[jid] = (ti, tfr)
 
 
 ALL_TERMS = ["eof", "dataeof", "datatimeout", "timeout"]
+TMO_TERMS = ["datatimeout", "timeout"]
+
+
+def with_tail(rng, case, conc, which=None, first=None):
+    """one of TLC's continuations of the case; stream + tail are concretised as ONE stream (the line
+    straddling the error is one metric / one run of bytes), then split at the position of the error"""
+    idx = [i for i, ct in enumerate(case["conts"]) if first is None or ct["tail"][0] == first]
+    ti = rng.choice(idx) if which is None else idx[which % len(idx)]
+    n = len(case["s"])
+    fr = conc(case["s"] + case["conts"][ti]["tail"])
+    return fr[:n], (ti, fr[n:])
 
 
 def build_jobs(ctx, exh, sim, rng):
@@ -139,9 +162,15 @@ def build_jobs(ctx, exh, sim, rng):
     # (a) every stream x every cut set x every terminating condition through Plain.Handle
     for c in exh:
         n = len(c["s"])
-        J.add(c, conc_bytes(rng, c["s"]), ["all"], ALL_TERMS, ["plain"], cls="exh-bytes")
+        f, tl = with_tail(rng, c, lambda s: conc_bytes(rng, s))
+        J.add(c, f, ["all"], ALL_TERMS, ["plain"], cls="exh-bytes", tail=tl)
         if n and (not q or rng.random() < 0.5):
-            J.add(c, conc_metric(rng, c["s"], len(J.jobs)), ["all", "one"], ["eof", "datatimeout"], ["plain"], cls="exh-metric")
+            f, tl = with_tail(rng, c, lambda s: conc_metric(rng, s, len(J.jobs)))
+            J.add(c, f, ["all", "one"], ["eof", "datatimeout"], ["plain"], cls="exh-metric", tail=tl)
+        if n <= ctx.pick(3, 5):      # every continuation TLC gives for the short streams
+            for k in range(len(c["conts"])):
+                f, tl = with_tail(rng, c, lambda s: conc_metric(rng, s, len(J.jobs)), which=k)
+                J.add(c, f, ["all"], TMO_TERMS, ["plain"], cls="exh-cont", tail=tl)
     # (b) the real listener: TCP one write per segment, UDP one datagram per stream; AMQP one body per stream
     tcp_all = ctx.pick(3, 4)
     for c in exh:
@@ -160,7 +189,11 @@ def build_jobs(ctx, exh, sim, rng):
         J.add(c, conc_bytes(rng, c["s"]), ["whole"], ["eof"], tr, cls="net")
     # (c) random longer streams: one-byte reads and random cut sets
     for i, c in enumerate(sim):
-        J.add(c, conc_bytes(rng, c["s"]), ["one", "rand"], ALL_TERMS, ["plain"], cls="sim-bytes")
+        f, tl = with_tail(rng, c, lambda s: conc_bytes(rng, s))
+        J.add(c, f, ["one", "rand"], ALL_TERMS, ["plain"], cls="sim-bytes", tail=tl)
+        if i % 4 == 1:
+            f, tl = with_tail(rng, c, lambda s: conc_metric(rng, s, len(J.jobs)))
+            J.add(c, f, ["whole", "rand"], TMO_TERMS, ["plain"], cls="sim-cont", tail=tl)
         if i % 2 == 0:
             J.add(c, conc_metric(rng, c["s"], len(J.jobs)), ["one", "rand", "whole"], ["eof", "dataeof"], ["plain"], cls="sim-metric")
         if i % ctx.pick(8, 8) == 0:
@@ -170,10 +203,15 @@ def build_jobs(ctx, exh, sim, rng):
     # (d) read timeout on the real TCP connection (each costs one read-timeout period)
     cand = [c for c in exh if 1 <= len(c["s"]) <= 4]
     for c in rng.sample(cand, ctx.pick(10, 60)):
-        J.add(c, conc_bytes(rng, c["s"], PAL_TEXT), ["whole"], ["timeout"], ["tcptimeout"], cls="net-timeout")
+        f, tl = with_tail(rng, c, lambda s: conc_bytes(rng, s, PAL_TEXT))
+        J.add(c, f, ["whole"], ["timeout"], ["tcptimeout"], cls="net-timeout", tail=tl)
     # (e) long lines up to the supported limits
     short = [c for c in exh if 1 <= len(c["s"]) <= 4 and any(x in ("x", "y") for x in c["s"])]
     nlong = ctx.pick(1, 6)
+
+    def long_tail(c):
+        # the long line stays within the limit: the tail begins with its terminator
+        return with_tail(rng, c, lambda s: [None] * len(c["s"]) + conc_metric(rng, s[len(c["s"]):], len(J.jobs)), first="LF")[1]
     for d in [0, 1, 2, 3] + [rng.randrange(4, 3000) for _ in range(ctx.pick(2, 8))]:
         for c in rng.sample(short, ctx.pick(6, 30)):
             # AMQP: line incl. terminator <= 4096
@@ -183,7 +221,7 @@ def build_jobs(ctx, exh, sim, rng):
             # Plain.Handle around the scanner's initial buffer size: every single cut position + one-byte reads
             f = conc_long(rng, c["s"], 4096 + rng.choice([-3, 0, 1, 2, 700]), d % 5)
             if f and rng.random() < ctx.pick(0.15, 0.5):
-                J.add(c, f, ["every", "one"], ["eof", "datatimeout"], ["plain"], cls="long-4k")
+                J.add(c, f, ["every", "one"], ["eof", "datatimeout"], ["plain"], cls="long-4k", tail=long_tail(c))
         for c in rng.sample(short, nlong * 3):
             f = conc_long(rng, c["s"], STREAM_LIMIT, d)
             if f:
@@ -199,7 +237,7 @@ def build_jobs(ctx, exh, sim, rng):
                             break
                         cs.append(p)
                     lst.append(cs)
-                J.add(c, f, ["whole", "list"], ["eof", "dataeof", "datatimeout"], ["plain"], lst=lst, cls="long-64k")
+                J.add(c, f, ["whole", "list"], ["eof", "dataeof", "datatimeout"], ["plain"], lst=lst, cls="long-64k", tail=long_tail(c))
                 J.add(c, f, ["whole", "list"], ["eof"], ["tcp"], lst=lst[-3:], cls="long-64k-tcp")
             f = conc_long(rng, c["s"], STREAM_LIMIT, d, total_max=UDP_MAX)
             if f and sum(len(x) for x in f) <= UDP_MAX:
@@ -208,9 +246,25 @@ def build_jobs(ctx, exh, sim, rng):
 
 
 # ------------------------------------------------------------------ verdict
-def expected(case, frags, term):
-    alts = case["eof"] if term in ("eof", "dataeof") else case["tmo"]
+def conc_lists(alts, frags):
     return {tuple(enc(b"".join(frags[a - 1:b])) for a, b in alt) for alt in alts}
+
+
+def expected(case, frags, term, tail=(-1, [])):
+    """TLC's acceptable dispatch lists, concretised; with a tail on offer after a timeout error the
+    lists are those of the chosen continuation (positions of stream \\o tail)"""
+    if term in ("eof", "dataeof"):
+        return conc_lists(case["eof"], frags)
+    if tail[0] < 0:
+        return conc_lists(case["tmo"], frags)
+    return conc_lists(case["conts"][tail[0]]["acc"], frags + tail[1])
+
+
+def read_on_lists(case, frags, term, tail):
+    """what TLC names as the outcome of reading on after the error (only used to label a rejected outcome)"""
+    if term in ("eof", "dataeof") or tail[0] < 0:
+        return set()
+    return conc_lists(case["conts"][tail[0]]["readon"], frags + tail[1])
 
 
 def judge(ctx, J, results, report=True):
@@ -218,7 +272,8 @@ def judge(ctx, J, results, report=True):
     runs, bad = 0, 0
     for r in results:
         case, frags, cls = J.meta[r["id"]]
-        exp = expected(case, frags, r["term"])
+        tail = J.tails[r["id"]]
+        exp = expected(case, frags, r["term"], tail)
         runs += r["runs"]
         for o in r["outcomes"]:
             ok = tuple(o["got"]) in exp
@@ -232,6 +287,10 @@ def judge(ctx, J, results, report=True):
             e0 = sorted(exp, key=len)[-1]
             if o["unstable"]:
                 kind = "buffer-changes-during-dispatch"
+            elif tuple(o["got"]) in read_on_lists(case, frags, r["term"], tail):
+                kind = "second-fragment-after-read-error"
+            elif o.get("tail_bytes", 0) > 0:
+                kind = "tail-misread-after-read-error"
             elif len(o["got"]) > len(e0):
                 kind = "extra-or-fragmented-lines"
             elif len(o["got"]) < min(len(e) for e in exp):
@@ -244,7 +303,11 @@ def judge(ctx, J, results, report=True):
                 key(case["s"]), sum(len(f) for f in frags), str(o["seg"])[:80], len(o["got"]), sorted(len(e) for e in exp)),
                 dict(stream=case["s"], frags=[f.hex() for f in frags] if small else "long", cuts=o["seg"][:50],
                      transport=r["tr"], term=r["term"], err=o["err"], got=o["got"], acceptable=sorted(map(list, exp)),
-                     n_segmentations_with_this_outcome=o["n"]))
+                     n_segmentations_with_this_outcome=o["n"],
+                     tail_after_error=dict(symbols=case["conts"][tail[0]]["tail"], frags=[f.hex() for f in tail[1]],
+                                           runs_offered=o.get("tail_runs", 0), runs_read_after_error=o.get("after_err", 0),
+                                           tail_bytes_taken=o.get("tail_bytes", 0))
+                     if tail[0] >= 0 and r["term"] in ("timeout", "datatimeout") else "none"))
     return runs, bad
 
 
@@ -300,6 +363,21 @@ def run(ctx):
             g[0] = g[0] + "00"
         if judge(ctx, J, [p2], report=False)[1] == 0:
             raise Machinery("binding self-test failed: a corrupted record (%s) was accepted" % mut)
+    # ... and the dispatch list TLC names for "read on after the error" (partial line, then its remainder
+    # as another line, then the rest of the tail) must be flagged where a tail was on offer
+    # (the probe is synthesised from a recorded result: its outcome is replaced by an acceptable list, which
+    # must pass, and by a read-on list, which must not -- independent of what the real code did)
+    probe = next((r for r in results if r["term"] in TMO_TERMS and r["tr"] == "plain" and r["outcomes"] and
+                  read_on_lists(*J.meta[r["id"]][:2], r["term"], J.tails[r["id"]])), None)
+    if probe is None:
+        raise Machinery("no timeout result with a line straddling the error and a tail on offer")
+    pm, pt = J.meta[probe["id"]][:2], J.tails[probe["id"]]
+    for lists, want_bad in ((expected(*pm, probe["term"], pt), 0), (read_on_lists(*pm, probe["term"], pt), 1)):
+        p2 = json.loads(json.dumps(probe))
+        p2["outcomes"] = [dict(p2["outcomes"][0], got=list(sorted(lists)[-1]), unstable=0)]
+        if judge(ctx, J, [p2], report=False)[1] != want_bad:
+            raise Machinery("binding self-test failed: %s" % ("a second fragment after the read error was accepted" if want_bad
+                                                              else "an acceptable list was rejected"))
     ctx.cov["binding_selftests"] = "passed"
 
     cov = ctx.cov
@@ -313,11 +391,22 @@ def run(ctx):
     cov["handler_runs_per_transport"] = per_tr
     cov["distinct_nontrivial"] = len(nontriv)
     cov["reused_after_return"] = sum(o["reused"] for r in results for o in r["outcomes"])
+    offered = sum(o.get("tail_runs", 0) for r in results for o in r["outcomes"])
+    straddle = sum(o.get("tail_runs", 0) for r in results for o in r["outcomes"]
+                   if r["term"] in TMO_TERMS and J.tails[r["id"]][0] >= 0 and
+                   J.meta[r["id"]][0]["conts"][J.tails[r["id"]][0]]["readon"])
+    cov["continuation_after_read_error"] = dict(
+        runs_with_tail_on_offer=offered, of_which_error_inside_a_line=straddle,
+        runs_handler_read_after_error=sum(o.get("after_err", 0) for r in results for o in r["outcomes"] if r["tr"] == "plain"),
+        tcp_runs_tail_sent=sum(o.get("after_err", 0) for r in results for o in r["outcomes"] if r["tr"] == "tcptimeout"))
+    if straddle < 100:
+        raise Machinery("only %d runs with a read error inside a line and a tail on offer" % straddle)
     cov["rule"] = ("evaluations = executions of a real handler on one (stream, concretisation, cut set, terminating condition); "
                    "streams = every symbol sequence over {x,y,CR,LF} of length <= %d (TLC, one initial state each) + %d seeded random "
                    "streams of 8..%d symbols (TLC simulation) + long-line concretisations up to 65536 B (TCP/plain), 65507 B (UDP), "
                    "4096 B incl. terminator (AMQP); cut sets = every subset of symbol boundaries for the exhaustive streams, one-byte "
-                   "reads and random cut sets for the longer ones, every single cut position for ~4 KiB streams; distinct_nontrivial = "
+                   "reads and random cut sets for the longer ones, every single cut position for ~4 KiB streams; for the timeout conditions a tail chosen by TLC (Conts) is on offer to "
+                   "reads issued after the error; distinct_nontrivial = "
                    "distinct (stream, transport, terminating condition, concretisation class) with at least one dispatched line" %
                    (ctx.pick(5, 7), len(sim), ctx.pick(40, 60)))
     ex = next(r for r in results if r["tr"] == "plain" and len(r["outcomes"][0]["got"]) >= 2)
@@ -331,6 +420,10 @@ def run(ctx):
     ctx.assumptions += [
         "a final unterminated line ending in CR may be dispatched with or without that CR; after a read timeout the partial "
         "last line may or may not be dispatched (statement silent)",
+        "after a read timeout the peer's further data (a tail chosen by TLC) is on offer to later reads; accepted: the handler "
+        "stopped at the error (nothing of the tail dispatched) or it dispatched the lines of the whole stream; a handler that "
+        "reads the tail but dispatches nothing of it is not told apart (only counted); on real TCP the tail is sent 1.5 "
+        "timeout periods after the stream, which affects only the detection power, not the verdict",
         "lines are driven up to the supported limits only: line + terminator <= 65536 B on TCP/UDP (datagram <= 65507 B), "
         "<= 4096 B on AMQP; behaviour beyond (token too long / split by ReadLine) is not asserted",
         "the capture dispatcher checks that its argument is stable during the call; reuse of the buffer after Dispatch "
